@@ -13,7 +13,7 @@ import numpy as np
 from . import build
 from .terms import Term, canon, from_json, to_json
 
-BLANK = {"e": "", "F": [], "cleanup": True, "fixed": [], "f": "", "kwargs": [], "results": [], "loaded": [], "cls": "", "msg": "", "args": [], "attributed": False}
+BLANK = {"e": "", "F": [], "cleanup": True, "fixed": [], "f": "", "kwargs": [], "results": [], "loaded": [], "cls": "", "msg": "", "args": [], "attributed": False, "disk": []}
 
 
 def ev(**kw) -> dict:
@@ -42,10 +42,10 @@ def inputs_to_py(inputs: list[list], kinds: dict[str, str] | None = None) -> dic
     return out
 
 
-def log_events(start: int) -> list[dict]:
+def log_events(start: int, desc: dict | None = None) -> list[dict]:
     out = []
     for rec in build.read_log()[start:] if build.LOG_FILE else build.LOG[start:]:
-        fd = build.REG[rec["fid"]]
+        fd = build.REG.get(rec["fid"]) or next(f for f in desc["funcs"] if f["name"] == rec["f"])
         kw = [[p, rec["kwargs"][p]] for p in fd["params"]]
         if rec["e"] in ("call", "ret"):
             out.append(ev(e=rec["e"], f=rec["f"], kwargs=kw))
